@@ -398,6 +398,9 @@ pub struct TxPlan {
     /// spend an input that a transaction pending in the other node's pool spends too (the one carrying the most
     /// routing work): once the producer's block is delivered, that pending transaction is no longer spendable
     pub conflict: bool,
+    /// spend the value input of the transaction submitted just before it to the SAME pool in this round (routed to the
+    /// producer as well): the pool must refuse it, and nothing of it may count
+    pub conflict_own: bool,
 }
 #[derive(Clone, Debug, PartialEq)]
 pub enum Priv {
@@ -500,11 +503,11 @@ pub fn random_scenario(r: &mut Rng, idx: usize, thorough: bool) -> Scenario {
                 6 => 50_000_000 / dt.max(1) + 1,
                 _ => r.range(90_000, 105_000),
             };
-            txs.push(TxPlan { payer: r.below(4) as usize, fee, hops: r.below(5) as usize, big_input: false, pad: if r.coin(1, 10) { r.range(1, 5000) as usize } else { 0 }, old: false, park: false, conflict: false });
+            txs.push(TxPlan { payer: r.below(4) as usize, fee, hops: r.below(5) as usize, big_input: false, pad: if r.coin(1, 10) { r.range(1, 5000) as usize } else { 0 }, old: false, park: false, conflict: false, conflict_own: false });
         }
         if whale && i == whale_at {
             gt = false;
-            txs.push(TxPlan { payer: whale_payer, fee: r.range(20_000_000, 199_990_000), hops: r.below(3) as usize, big_input: true, pad: *r.pick(&[0usize, 100_000, 200_000, 400_000]), old: false, park: false, conflict: false });
+            txs.push(TxPlan { payer: whale_payer, fee: r.range(20_000_000, 199_990_000), hops: r.below(3) as usize, big_input: true, pad: *r.pick(&[0usize, 100_000, 200_000, 400_000]), old: false, park: false, conflict: false, conflict_own: false });
         }
         if whale && i == whale_at + 1 {
             gt = false;
@@ -555,7 +558,7 @@ pub fn random_scenario(r: &mut Rng, idx: usize, thorough: bool) -> Scenario {
 /// refuses. Swept over the offset, A's fee, B's fee, the hop counts, which node waits, and with/without a ticket.
 pub fn conflict_family() -> Vec<Scenario> {
     let far = 2 * HB + 1;
-    let plain = |payer: usize, fee: u64, hops: usize| TxPlan { payer, fee, hops, big_input: false, pad: 0, old: false, park: false, conflict: false };
+    let plain = |payer: usize, fee: u64, hops: usize| TxPlan { payer, fee, hops, big_input: false, pad: 0, old: false, park: false, conflict: false, conflict_own: false };
     let mut v = vec![];
     let mut k = 0;
     for (fee_a, hops_a) in [(90_000u64, 1usize), (40_000, 2), (12_000, 1)] {
@@ -606,7 +609,7 @@ pub fn conflict_family() -> Vec<Scenario> {
 /// own validator refuses. Swept over the three gaps, the offset and the producing node.
 pub fn failed_fork_family() -> Vec<Scenario> {
     let far = 2 * HB + 1;
-    let plain = |payer: usize, fee: u64, hops: usize| TxPlan { payer, fee, hops, big_input: false, pad: 0, old: false, park: false, conflict: false };
+    let plain = |payer: usize, fee: u64, hops: usize| TxPlan { payer, fee, hops, big_input: false, pad: 0, old: false, park: false, conflict: false, conflict_own: false };
     let mut v = vec![];
     let mut k = 0usize;
     for a in [300u64, 500, 1_000] {
@@ -626,6 +629,25 @@ pub fn failed_fork_family() -> Vec<Scenario> {
                 k += 1;
             }
         }
+    }
+    // a conflicting spend offered to the SAME pool: A (work a) is pooled, A' (work c, same input) is refused; the producer fires
+    // where the requirement lies between a and a + c — nothing of a refused transaction may count as work
+    for (j, (fee_a, fee_c, dt)) in [(1_500u64, 4_000u64, 9_000u64), (1_500, 4_000, 14_000), (800, 9_000, 5_200), (2_000, 2_000, 9_000), (600, 1_500, 14_000), (1_000, 30_000, 19_999)].iter().enumerate() {
+        let p = j % 2;
+        let mut rounds = vec![];
+        rounds.push(Round { producer: p, gt: true, dt: far, txs: vec![plain(0, 10, 0)], privileged: Priv::None, episode: None });
+        rounds.push(Round { producer: 1 - p, gt: true, dt: far, txs: vec![plain(1, 10, 0)], privileged: Priv::None, episode: None });
+        rounds.push(Round {
+            producer: p,
+            gt: j % 3 != 1,
+            dt: *dt,
+            txs: vec![plain(2, *fee_a, 1), TxPlan { conflict_own: true, ..plain(2, *fee_c, 1 + j % 2) }],
+            privileged: Priv::None,
+            episode: None,
+        });
+        rounds.push(Round { producer: p, gt: true, dt: (*dt + 3_000).min(2 * HB - 1), txs: vec![], privileged: Priv::None, episode: None });
+        rounds.push(Round { producer: 1 - p, gt: true, dt: far, txs: vec![plain(0, 10, 1)], privileged: Priv::None, episode: None });
+        v.push(Scenario { name: format!("refused-conflict-{}", j), gp: 8, issue: default_issue(None), rounds, prune_after: 50, target: 0, stake: 0 });
     }
     // the reorganisation that succeeds: production goes on on the fork, T's transaction is back in the pools
     for (j, (at, b, dt)) in [(2 * HB + 1, 5_000u64, 2 * HB + 1), (2 * HB + 1, 5_000, 9_000), (3 * HB, 6_000, 2 * HB - 1), (2 * HB + 1, 4_000, 6_000), (5 * HB, 5_000, 2 * HB + 1), (2 * HB + 1, 7_000, 12_000)].iter().enumerate() {
@@ -654,9 +676,9 @@ fn add_conflicts(r: &mut Rng, rounds: &mut Vec<Round>) {
             let (ha, hb_) = (r.range(1, 3) as usize, r.range(1, 2) as usize);
             let producer = rounds[i].producer;
             rounds[i].dt = r.range(2 * HB + 1, 4 * HB);
-            rounds[i].txs.push(TxPlan { payer: pa, fee: fee_a, hops: ha, big_input: false, pad: 0, old: false, park: true, conflict: false });
-            rounds[i].txs.push(TxPlan { payer: pb, fee: fee_b, hops: hb_, big_input: false, pad: 0, old: false, park: true, conflict: false });
-            rounds[i].txs.push(TxPlan { payer: pa, fee: r.range(0, 50), hops: r.below(2) as usize, big_input: false, pad: 0, old: false, park: false, conflict: true });
+            rounds[i].txs.push(TxPlan { payer: pa, fee: fee_a, hops: ha, big_input: false, pad: 0, old: false, park: true, conflict: false, conflict_own: false });
+            rounds[i].txs.push(TxPlan { payer: pb, fee: fee_b, hops: hb_, big_input: false, pad: 0, old: false, park: true, conflict: false, conflict_own: false });
+            rounds[i].txs.push(TxPlan { payer: pa, fee: r.range(0, 50), hops: r.below(2) as usize, big_input: false, pad: 0, old: false, park: false, conflict: true, conflict_own: false });
             rounds[i + 1].producer = 1 - producer;
             rounds[i + 1].dt = r.range(5_000, 2 * HB - 1);
             rounds[i + 1].txs.clear();
@@ -683,7 +705,7 @@ pub fn scenarios(seed: u64, tier: &str) -> Vec<Scenario> {
 
 /// scenario text format (corpus/C07/*.ops and the replay files):
 /// `gp=<n>`, `issue=key:amount,…`, then one round per line
-/// `p=<0|1> gt=<0|1> dt=<ms> priv=<n|i|a|f> txs=payer:fee:hops:big:pad:old:park:conflict,… [ep=a:b1:b2]`
+/// `p=<0|1> gt=<0|1> dt=<ms> priv=<n|i|a|f> txs=payer:fee:hops:big:pad:old:park:conflict:conflict_own,… [ep=a:b1:b2]`
 pub fn parse_scenario(text: &str, name: &str) -> Scenario {
     let mut gp = 5;
     let mut target = 0;
@@ -748,7 +770,7 @@ pub fn parse_scenario(text: &str, name: &str) -> Scenario {
                     for t in x.split(',') {
                         let f: Vec<u64> = t.split(':').filter_map(|y| y.parse().ok()).collect();
                         if f.len() >= 5 {
-                            rd.txs.push(TxPlan { payer: (f[0] % 4) as usize, fee: f[1], hops: (f[2] % 5) as usize, big_input: f[3] == 1, pad: f[4] as usize, old: f.get(5) == Some(&1), park: f.get(6) == Some(&1), conflict: f.get(7) == Some(&1) });
+                            rd.txs.push(TxPlan { payer: (f[0] % 4) as usize, fee: f[1], hops: (f[2] % 5) as usize, big_input: f[3] == 1, pad: f[4] as usize, old: f.get(5) == Some(&1), park: f.get(6) == Some(&1), conflict: f.get(7) == Some(&1), conflict_own: f.get(8) == Some(&1) });
                         }
                     }
                 }
@@ -778,7 +800,7 @@ pub fn scenario_text(s: &Scenario) -> String {
     let iss: Vec<String> = s.issue.iter().map(|(k, a)| format!("{}:{}", k, a)).collect();
     o.push_str(&format!("issue={}\n", iss.join(",")));
     for r in &s.rounds {
-        let txs: Vec<String> = r.txs.iter().map(|t| format!("{}:{}:{}:{}:{}:{}:{}:{}", t.payer, t.fee, t.hops, t.big_input as u8, t.pad, t.old as u8, t.park as u8, t.conflict as u8)).collect();
+        let txs: Vec<String> = r.txs.iter().map(|t| format!("{}:{}:{}:{}:{}:{}:{}:{}:{}", t.payer, t.fee, t.hops, t.big_input as u8, t.pad, t.old as u8, t.park as u8, t.conflict as u8, t.conflict_own as u8)).collect();
         let p = match r.privileged {
             Priv::None => "n",
             Priv::Issuance => "i",
@@ -1063,6 +1085,30 @@ pub async fn run_scenario(sc: &Scenario, seed: u64, e: &mut Emit<'_>) -> Report 
         for (ti, plan) in rd.txs.iter().enumerate().filter(|(_, t)| !t.park) {
             if plan.conflict {
                 (e.count)("tx:conflicting-spend-of-pending-input");
+            }
+            if plan.conflict_own {
+                // a different transaction over the value input of the transaction submitted just before it, routed to the producer
+                let prev_in = submitted.iter().rev().find_map(|t: &Transaction| t.from.iter().find(|sl| sl.amount > 0).cloned());
+                if let Some(sl) = prev_in {
+                    if let Some(u) = w.seen.iter().find(|u| u.slip.utxoset_key == sl.utxoset_key).cloned() {
+                        let fee = plan.fee.min(u.slip.amount - 1);
+                        let payer = u.owner;
+                        let out = u.slip.amount - fee;
+                        let mut tx = w.f.make_tx(&TxSpec { inputs: vec![u], outputs: vec![(payer, out)], data: vec![0xC0, ti as u8, next_id as u8] });
+                        let mut chain: Vec<u64> = vec![payer];
+                        for i in 0..plan.hops.max(1) - 1 {
+                            chain.push(ROUTERS[i % ROUTERS.len()]);
+                        }
+                        chain.push(pkey);
+                        for wnd in chain.windows(2) {
+                            let (pk, sk) = key(wnd[0]);
+                            tx.add_hop(&sk, &pk, &key(wnd[1]).0);
+                        }
+                        (e.count)("tx:conflicting-spend-offered-to-the-same-pool");
+                        submitted.push(tx);
+                    }
+                }
+                continue;
             }
             if let Some(tx) = build_tx(&w, plan, &mut used, pkey, o, next_id, sc.gp, ti as u8) {
                 (e.count)(&format!("tx:hops={}", plan.hops));
@@ -1360,7 +1406,7 @@ async fn failed_fork_episode(w: &mut World, sc: &Scenario, rd: &Round, a: u64, b
     }
     let pb = w.nodes[0].blockchain.blocks.get(&tip.1).ok_or("no-tip-block")?.clone();
     let needed = |bf: Currency, now: u64, prev: u64| BurnFee::return_routing_work_needed_to_produce_block_in_nolan(bf, now, prev, HB);
-    let routed = |payer: usize, fee: u64| TxPlan { payer, fee, hops: 1, big_input: true, pad: 0, old: false, park: false, conflict: false };
+    let routed = |payer: usize, fee: u64| TxPlan { payer, fee, hops: 1, big_input: true, pad: 0, old: false, park: false, conflict: false, conflict_own: false };
     let pooled: Vec<SaitoUTXOSetKey> = w.nodes.iter().flat_map(|n| n.mempool.transactions.values().flat_map(|t| t.from.iter().map(|s| s.utxoset_key)).collect::<Vec<_>>()).collect();
     let next_id = pb.id + 1;
     let other_key = if rd.producer == 0 { KEY_B } else { KEY_A };
